@@ -301,7 +301,7 @@ func (e Engine) Execute(r *core.Run) *core.Violation {
 		}
 	}
 	if r.Property == "C07" {
-		pct := 15
+		pct := 25
 		if r.Tier == "thorough" {
 			pct = 40
 		}
